@@ -53,6 +53,9 @@ func init() {
 	register(&core.Rule{ID: "G1", Min: 20,
 		Doc: "Separator grammar of the emitted decoder programs: on the control flow of every emitted template, from a `match_char ','` no path through non-consuming instructions (lspace, load, goto) reaches an instruction that accepts the closing bracket (check_char '}' / ']', check_empty) before a value or key has been consumed; otherwise `{\"a\":1,}` or `[1,]` is accepted.",
 		Run: func(c *core.Ctx) { runIRT(c, "G1") }})
+	register(&core.Rule{ID: "G2", Min: 8,
+		Doc: "Type guard of the emitted decoder programs: in every emitted template, the instruction that follows `is_null` (the start of a value; lspace ignored) is a type guard or a delegation - check_char_0 + dismatch_err, the checkIfSkip helper, check_char '[' / '\"' (byte slices), a strict match_char, the error-raising dismatch_err/unsupported, the dynamic dispatchers any/dyn/recurse, a primitive/unmarshaler opcode passed in by the caller, checkMarshaler, or a call that compiles the value (compileOps/compileOne/...) - never an instruction that consumes or skips the value unconditionally: otherwise a value of the wrong JSON type is accepted silently where encoding/json reports an UnmarshalTypeError.",
+		Run: func(c *core.Ctx) { runIRT(c, "G2") }})
 	register(&core.Rule{ID: "I3", Min: 8,
 		Doc: "Depth tag: every compile function that emits a save also emits tag(sp...) before it on the same path (the compile-time nesting bound that turns unbounded type nesting into an error).",
 		Run: func(c *core.Ctx) { runIRT(c, "I3") }})
@@ -782,6 +785,51 @@ func (s *irState) finish(endPos token.Pos) {
 	}
 	s.balance(endPos)
 	s.grammar()
+	s.typeGuard()
+}
+
+// typeGuard (G2): a value starts with is_null; what follows must check the value's type
+// (or hand the value to code that does) before anything consumes it.
+func (s *irState) typeGuard() {
+	if s.d.name != "jitdec" {
+		return
+	}
+	for i, in := range s.instrs {
+		if in.op != "_OP_is_null" {
+			continue
+		}
+		j := i + 1
+		for j < len(s.instrs) && s.instrs[j].op == "_OP_lspace" {
+			j++
+		}
+		if j >= len(s.instrs) {
+			continue
+		}
+		x := s.instrs[j]
+		ok := false
+		switch {
+		case x.op == "_OP_check_char_0":
+			ok = j+1 < len(s.instrs) && s.instrs[j+1].op == "_OP_dismatch_err"
+		case x.op == "_OP_check_char" && (x.arg == "[" || x.arg == "\""):
+			ok = true
+		case x.op == "_OP_any" || x.op == "_OP_dyn" || x.op == "_OP_recurse" || x.op == "_OP_deref":
+			ok = true
+		case x.op == "_OP_dismatch_err" || x.op == "_OP_unsupported" || x.op == "_OP_match_char":
+			ok = true // records / raises the error itself
+		case x.op == "?":
+			ok = true // opcode chosen by the caller (primitive and unmarshaler opcodes validate the token themselves)
+		case strings.HasPrefix(x.op, "label-from:checkIfSkip"), strings.HasPrefix(x.op, "call:"):
+			ok = true
+		}
+		if !ok {
+			what := strings.TrimPrefix(x.op, "_OP_")
+			if x.arg != "" {
+				what += " '" + x.arg + "'"
+			}
+			s.viol = append(s.viol, irViolation{"G2", "type-guard", x.pos,
+				"after is_null the emitted program executes `" + what + "` (at " + s.p.Pos(x.pos) + ") without a type guard (check_char_0 + dismatch_err / checkIfSkip): a value of another JSON type is consumed silently instead of being reported as a type mismatch"})
+		}
+	}
 }
 
 // grammar (G1): after a ',' separator the emitted decoder program must not accept the
@@ -1121,6 +1169,9 @@ func runIRT(c *core.Ctx, rule string) {
 			if rule == "I3" && !an.emitsSave[name] {
 				continue
 			}
+			if (rule == "G2" || rule == "G1") && d.name != "jitdec" {
+				continue
+			}
 			var mine []irViolation
 			for _, v := range an.viols[name] {
 				if v.rule != rule {
@@ -1154,6 +1205,8 @@ func runIRT(c *core.Ctx, rule string) {
 					c.OK(fn+"/tag", info.fd.Pos(), "save preceded by tag on every path")
 				case "G1":
 					c.OK(fn+"/separators", info.fd.Pos(), "%d feasible paths: no ',' is followed by an accepted closer", an.paths[name])
+				case "G2":
+					c.OK(fn+"/type-guard", info.fd.Pos(), "%d feasible paths: every is_null is followed by a type guard or a delegation", an.paths[name])
 				}
 				continue
 			}
